@@ -86,6 +86,20 @@ theorem C09_round4_bound (x : Rat) : |round4 x - x| ≤ 1 / 20000 := by
     rw [e]
     linarith
 
+/-- **a second NET round trip is exact**: a value that already has four decimals is printed as itself, so
+    write -> read -> write reproduces the first file's numbers exactly (only the first write rounds) -/
+theorem C09_round4_idempotent (x : Rat) : round4 (round4 x) = round4 x := by
+  unfold round4
+  generalize (x * 10000 + 1/2).floor = n
+  have e1 : ((n : Rat) / 10000 * 10000 + 1/2) = (n : Rat) + 1/2 := by ring
+  rw [e1]
+  have e2 : ((n : Rat) + 1/2).floor = n := by
+    change ⌊(n : Rat) + 1/2⌋ = n
+    rw [Int.floor_intCast_add]
+    have : ⌊(1/2 : Rat)⌋ = 0 := by rw [Int.floor_eq_iff]; norm_num
+    rw [this, add_zero]
+  rw [e2]
+
 example : flattenF 2 2 (fun i j => (i : Rat) + 10 * j) = [0, 1, 10, 11] := by
   simp [flattenF, List.range, List.range.loop]
   norm_num
